@@ -93,12 +93,14 @@ func checkC08(c *Ctx, r *Report) {
 	r.rule("C08.R1", "no stored tariff value can crash the handler: divisors proven non-zero, database type assertions checked", 2)
 	r.rule("C08.R2", "Price and AllowedUnits have the statement's form for every Request-Sub-Type possible on the path", 4)
 	r.rule("C08.R6", "stored tariffs are parsed in the full width of the member they are put in, and the tariff is looked up under the request's rating group exactly (no narrowing of parsed numbers or of look-up keys)", 2)
+	r.rule("C08.R7", "quota, price, units and tariff mean on the wire what the server computes with: member types match the dictionary's AVP types exactly (an integer AVP declared as a float type loses large values), tags and constants agree with the dictionary (shared with C17.R1/R2/R8/R9)", 100)
 	r.rule("C08.R3", "server and CHF compute the same unit cost polynomial from the tariff sent in the answer", 2)
 	r.rule("C08.R4", "every path for a found account answers", 1)
 	r.rule("C08.R5", "the handler keeps no state between requests (no captured or package-level variable written)", 1)
 
 	rfRules(c, r, "C08.R1", "C08.R2", "C08.R3", "C08.R4", "C08.R5")
 	rfWidthRules(c, r, "C08.R6")
+	r.shareFrom(c, checkC17, map[string]string{"C17.R1": "C08.R7", "C17.R2": "C08.R7", "C17.R8": "C08.R7", "C17.R9": "C08.R7"})
 }
 
 // rfRules: the rules of the rating server's SUR handler, under the caller's rule names
